@@ -23,6 +23,7 @@ type AttrCache struct {
 	maxSize        int           // Maximum number of entries in the cache
 	accessList     *list.List    // Doubly-linked list for O(1) LRU tracking
 	enableNegative bool          // Enable negative caching
+	epoch          uint64        // Counts invalidations; see Epoch
 }
 
 // CachedAttrs represents cached file attributes with expiration
@@ -63,6 +64,7 @@ func (c *AttrCache) ConfigureNegativeCaching(enable bool, ttl time.Duration) {
 	// Negative entries exist only while negative caching is enabled: drop the
 	// ones stored earlier so that Get stops answering "does not exist" for them.
 	if !enable {
+		c.epoch++
 		for path, cached := range c.cache {
 			if cached.isNegative {
 				c.removeFromAccessLog(path)
@@ -201,11 +203,45 @@ func (c *AttrCache) removeFromAccessLog(path string) {
 	cached.listElement = nil
 }
 
+// Epoch identifies the invalidation history of the cache. A caller that is
+// about to read the backend takes it first and hands it to PutIfCurrent or
+// PutNegativeIfCurrent: they store nothing when an invalidation happened in
+// between, because what was read may already be out of date.
+func (c *AttrCache) Epoch() uint64 {
+	c.mu.RLock()
+	defer c.mu.RUnlock()
+	return c.epoch
+}
+
+// PutIfCurrent is Put unless the cache was invalidated since epoch was taken.
+func (c *AttrCache) PutIfCurrent(epoch uint64, path string, attrs *NFSAttrs) {
+	c.mu.Lock()
+	defer c.mu.Unlock()
+	if c.epoch != epoch {
+		return
+	}
+	c.putLocked(path, attrs)
+}
+
+// PutNegativeIfCurrent is PutNegative unless the cache was invalidated since
+// epoch was taken.
+func (c *AttrCache) PutNegativeIfCurrent(epoch uint64, path string) {
+	c.mu.Lock()
+	defer c.mu.Unlock()
+	if c.epoch != epoch {
+		return
+	}
+	c.putNegativeLocked(path)
+}
+
 // Put adds or updates cached attributes
 func (c *AttrCache) Put(path string, attrs *NFSAttrs) {
 	c.mu.Lock()
 	defer c.mu.Unlock()
+	c.putLocked(path, attrs)
+}
 
+func (c *AttrCache) putLocked(path string, attrs *NFSAttrs) {
 	// Check if entry already exists
 	existing, exists := c.cache[path]
 
@@ -255,18 +291,18 @@ func (c *AttrCache) Put(path string, attrs *NFSAttrs) {
 
 // PutNegative adds a negative cache entry (file not found)
 func (c *AttrCache) PutNegative(path string) {
-	// Only store negative entries if enabled
-	c.mu.RLock()
-	enabled := c.enableNegative
-	negativeTTL := c.negativeTTL
-	c.mu.RUnlock()
-
-	if !enabled {
-		return
-	}
-
 	c.mu.Lock()
 	defer c.mu.Unlock()
+	c.putNegativeLocked(path)
+}
+
+func (c *AttrCache) putNegativeLocked(path string) {
+	// Only store negative entries if enabled (checked under the same lock
+	// that ConfigureNegativeCaching takes to switch it off)
+	if !c.enableNegative {
+		return
+	}
+	negativeTTL := c.negativeTTL
 
 	// Check if entry already exists
 	existing, exists := c.cache[path]
@@ -308,6 +344,7 @@ func (c *AttrCache) PutNegative(path string) {
 func (c *AttrCache) Invalidate(path string) {
 	c.mu.Lock()
 	defer c.mu.Unlock()
+	c.epoch++
 
 	c.removeFromAccessLog(path)
 	delete(c.cache, path)
@@ -319,6 +356,7 @@ func (c *AttrCache) Invalidate(path string) {
 func (c *AttrCache) InvalidateTree(path string) {
 	c.mu.Lock()
 	defer c.mu.Unlock()
+	c.epoch++
 
 	prefix := strings.TrimSuffix(path, "/") + "/"
 	for p := range c.cache {
@@ -333,6 +371,7 @@ func (c *AttrCache) InvalidateTree(path string) {
 func (c *AttrCache) Clear() {
 	c.mu.Lock()
 	defer c.mu.Unlock()
+	c.epoch++
 
 	c.cache = make(map[string]*CachedAttrs)
 	c.accessList = list.New()
@@ -381,6 +420,7 @@ func (c *AttrCache) NegativeStats() int {
 func (c *AttrCache) InvalidateNegativeInDir(dirPath string) {
 	c.mu.Lock()
 	defer c.mu.Unlock()
+	c.epoch++
 
 	// Find all negative entries that are children of this directory
 	toDelete := make([]string, 0)
@@ -492,6 +532,7 @@ type DirCache struct {
 	maxDirSize int
 	hits       uint64
 	misses     uint64
+	epoch      uint64 // Counts invalidations; see Epoch
 }
 
 // CachedDirEntry represents cached directory entries with expiration
@@ -565,10 +606,31 @@ func (c *DirCache) Get(path string) ([]os.FileInfo, bool) {
 	return entries, true
 }
 
+// Epoch identifies the invalidation history of the cache (see AttrCache.Epoch).
+func (c *DirCache) Epoch() uint64 {
+	c.mu.RLock()
+	defer c.mu.RUnlock()
+	return c.epoch
+}
+
+// PutIfCurrent is Put unless the cache was invalidated since epoch was taken.
+func (c *DirCache) PutIfCurrent(epoch uint64, path string, entries []os.FileInfo) {
+	c.mu.Lock()
+	defer c.mu.Unlock()
+	if c.epoch != epoch {
+		return
+	}
+	c.putLocked(path, entries)
+}
+
 // Put adds or updates cached directory entries
 func (c *DirCache) Put(path string, entries []os.FileInfo) {
 	c.mu.Lock()
 	defer c.mu.Unlock()
+	c.putLocked(path, entries)
+}
+
+func (c *DirCache) putLocked(path string, entries []os.FileInfo) {
 
 	// Don't cache directories that exceed the maximum size
 	if len(entries) > c.maxDirSize {
@@ -642,6 +704,7 @@ func (c *DirCache) removeFromAccessList(path string) {
 func (c *DirCache) Invalidate(path string) {
 	c.mu.Lock()
 	defer c.mu.Unlock()
+	c.epoch++
 
 	c.removeFromAccessList(path)
 	delete(c.entries, path)
@@ -651,6 +714,7 @@ func (c *DirCache) Invalidate(path string) {
 func (c *DirCache) InvalidateTree(path string) {
 	c.mu.Lock()
 	defer c.mu.Unlock()
+	c.epoch++
 
 	prefix := strings.TrimSuffix(path, "/") + "/"
 	for p := range c.entries {
@@ -665,6 +729,7 @@ func (c *DirCache) InvalidateTree(path string) {
 func (c *DirCache) Clear() {
 	c.mu.Lock()
 	defer c.mu.Unlock()
+	c.epoch++
 
 	c.entries = make(map[string]*CachedDirEntry)
 	c.accessList = list.New()
